@@ -25,7 +25,7 @@ T = {
  'C01': ("28 kernel-checked theorems: for every in-domain request of every kind the code-shaped encoder's output parses, with an "
          "independently written MQTT 5 parser, to exactly one packet holding exactly the caller's values (enc_*_parses), remaining/"
          "property length fields exact (*_lengths), packetLen = encoded length (*_packetLen), refusal exactly for the missing-mandatory-"
-         "part cases (*_valid_iff). Whole executions (Properties/C01World): every packet the client builds is exactly one frame; everything handed to the transport is the concatenation of the submitted packets (wire_is_submitted), the W lines of every transcript are those packets (transcript_wires), no partial packet is ever left (no_wraw), every W line parses with the independent parser to the packet of a request of the script with the identifiers the library assigned (wire_lines_from_callers); refusal changes nothing (startOp_refused, connect_refused). TxPacketStream::write = write_all over an ARBITRARY writer oracle (TxStream.lean, Properties/C01Tx, 21 theorems): accepted ++ remaining = packet after every poll (write_all_conserves), Ok only with the whole packet taken, an error only from the transport, Pending answers and the fragmentation invisible (delays_are_invisible, fragmentation_is_invisible), the wire after a sequence of writes = the completed packets in submission order then a proper prefix of the next (wire_is_whole_packets_then_a_proper_prefix), read back by the reference framing as exactly those packets (wire_frames_to_the_completed_packets), and under any transport a prefix of — when all writes completed equal to — the model's World.sent (any_transport_yields_the_models_wire).",
+         "part cases (*_valid_iff). Whole executions (Properties/C01World): every packet the client builds is exactly one frame; everything handed to the transport is the concatenation of the submitted packets (wire_is_submitted), the W lines of every transcript are those packets (transcript_wires), no partial packet is ever left (no_wraw), every W line parses with the independent parser to the packet of a request of the script with the identifiers the library assigned (wire_lines_from_callers); refusal changes nothing (startOp_refused, connect_refused). TxPacketStream::write = write_all over an ARBITRARY writer oracle (TxStream.lean, Properties/C01Tx, 22 theorems; the WCALLS line of every script runs this model against the code): accepted ++ remaining = packet after every poll (write_all_conserves), Ok only with the whole packet taken, an error only from the transport, Pending answers and the fragmentation invisible (delays_are_invisible, fragmentation_is_invisible), the wire after a sequence of writes = the completed packets in submission order then a proper prefix of the next (wire_is_whole_packets_then_a_proper_prefix), read back by the reference framing as exactly those packets (wire_frames_to_the_completed_packets), and under any transport a prefix of — when all writes completed equal to — the model's World.sent (any_transport_yields_the_models_wire).",
          "Partial / pending writes of the AsyncWrite half: write_all itself is modelled and proved for every transport (C01Tx); the World model still hands whole packets to the transport (a context task suspended INSIDE a write is outside World), and the tie of write_all to the code is the correspondence run under the four writer policies one/pend/pendone/all, which mock_transport_writes_everything shows to be instances of the oracle. "),
  'C02': ("dec_of_spec (+ one theorem per packet type): for every well-formed server packet p (independent spec encoder, decidable WF) "
          "decodeRx (encodeServer p) = ok (expected p): all 11 types, all short forms, any property order, repeated user properties, "
